@@ -109,7 +109,7 @@ CLAIMS = {
        "exactly by the case mark and JunitReporter::report turns the totals into update_exit_code(ERROR | FAILURE | nothing); the "
        "--structured parse closure sets the exit code to 5 on a parse error and leaves that file out; `test`'s plain reporter exits 0 / 7 / 1 "
        "by mismatches / unreadable files.",
-  note="NOT covered: the exit code of `test`'s structured / JUnit reporter and --dir mode beyond get_exit_code, files/stdin/clap, main(). The MIR checks fix verbose = print_json = false and no input parameters.",
+  note="Also decided: TestResult::get_exit_code of the structured `test` reporter (error file -> error code; failure code iff some case has a non-empty failed_rules list). NOT covered: --dir mode beyond get_exit_code, files/stdin/clap, main().",
   design="4/C06"),
  "C07": dict(
   text="Wiring of the verdict through every rendering path, decided on MIR (callees modelled, value identities tracked; z3+cvc5): "
